@@ -193,6 +193,7 @@ pub struct Sim {
     pub world: World,
     pub rng: Rng,
     pub job: JobView,
+    pub core: crate::coreview::CoreView,
     completed: BTreeMap<u32, u32>,
     known_jobs: Vec<u32>,
     open_jobs: Vec<u32>,
@@ -270,6 +271,7 @@ impl Sim {
             world,
             rng: Rng::new(seed),
             job: JobView { lines: vec![] },
+            core: Default::default(),
             completed: Default::default(),
             known_jobs: vec![],
             open_jobs: vec![],
@@ -288,12 +290,39 @@ impl Sim {
         }
     }
 
-    /// after any world action: print recorded callbacks in the job view
-    fn flush_callbacks(&mut self) {
+    /// after any world action: print recorded callbacks in the job view and the action in the core view
+    fn flush_callbacks(&mut self, core_ops: Vec<String>) {
         let cbs = self.world.take_callbacks();
         let mut completed = std::mem::take(&mut self.completed);
         self.job.callbacks(&self.world, &cbs, &mut completed);
         self.completed = completed;
+        self.core_flush(core_ops, &cbs);
+    }
+
+    fn core_flush(&mut self, mut ops: Vec<String>, cbs: &[Callback]) {
+        let recs = tako::verif::sched::take();
+        ops.extend(crate::coreview::record_ops(&recs));
+        if recs.iter().any(|r| matches!(r, tako::verif::sched::Record::Sn { .. } | tako::verif::sched::Record::Mn { .. } | tako::verif::sched::Record::PrefillOrder { .. }))
+            || ops.iter().any(|o| o == "sched")
+        {
+            ops.retain(|o| o != "sched");
+            ops.push(crate::coreview::schedule_op(&recs));
+        }
+        let sent = self.world.take_sent();
+        if ops.is_empty() {
+            return;
+        }
+        let rets: Vec<Vec<TaskId>> = cbs.iter().filter_map(|c| if let CbKind::Error { ret, .. } = &c.kind { Some(ret.clone()) } else { None }).collect();
+        self.core.op(&ops, &rets);
+        if let Some(p) = &self.panicked {
+            if !is_job_layer_panic(p) {
+                self.core.lines.push("out !panic core".to_string());
+            }
+            return;
+        }
+        let flag = self.world.server.scheduling_flag();
+        let snap = self.world.server.core_snapshot();
+        self.core.outputs(&sent, cbs, flag, &snap);
     }
 
     fn client_op(&mut self, op_line: String, msg: FromClientMessage) -> Option<ToClientMessage> {
@@ -306,12 +335,17 @@ impl Sim {
                 self.job.lines.push("out !panic job".to_string());
             }
             self.job.lines.push(format!("mon FAIL c09.panic {} {}", panic_site(&p), p.replace('\n', " ")));
+            let cbs = self.world.take_callbacks();
+            self.core_flush(vec![], &cbs);
+            self.core.lines.push(format!("mon FAIL c09.panic {} {}", panic_site(&p), p.replace('\n', " ")));
             return None;
         };
         let evs = drain_events(&self.world.events);
         let mut completed = std::mem::take(&mut self.completed);
         self.job.events(&evs, &mut completed);
         self.completed = completed;
+        let cbs = self.world.take_callbacks();
+        self.core_flush(vec![], &cbs);
         resp
     }
 
@@ -595,11 +629,13 @@ impl Sim {
 
     // ---- cluster actions ------------------------------------------------------------------
 
-    fn world_action(&mut self, f: impl FnOnce(&mut Sim)) {
+    fn world_action(&mut self, core_ops: Vec<String>, f: impl FnOnce(&mut Sim)) {
         self.guarded(|s| f(s));
-        self.flush_callbacks();
+        self.flush_callbacks(core_ops);
         if let Some(p) = &self.panicked {
-            self.job.lines.push(format!("mon FAIL c09.panic {} {}", panic_site(p), p.replace('\n', " ")));
+            let l = format!("mon FAIL c09.panic {} {}", panic_site(p), p.replace('\n', " "));
+            self.job.lines.push(l.clone());
+            self.core.lines.push(l);
         }
     }
 
@@ -609,7 +645,8 @@ impl Sim {
         let next = WorkerId::new(self.world.server.worker_counter() + 1);
         let cfg = worker_config(next, cpus, group, None);
         self.log.push(format!("add_worker cpus={cpus} group={group}"));
-        self.world_action(|s| {
+        let op = format!("wnew {} tot={} g={} term=-", next.as_num(), cpus as u64 * 10_000, group);
+        self.world_action(vec![op], |s| {
             s.world.add_worker(cfg);
         });
     }
@@ -628,13 +665,15 @@ impl Sim {
             LostWorkerReason::TimeLimitReached,
         ]);
         self.log.push(format!("lose_worker {id} {}", reason_name(reason)));
-        self.world_action(|s| s.world.lose_worker(id, reason));
+        let order = self.world.server.assigned_order(WorkerId::new(id));
+        let op = crate::coreview::lost_op(id, reason, &order);
+        self.world_action(vec![op], |s| s.world.lose_worker(id, reason));
     }
 
     pub fn act_schedule(&mut self) {
         self.world.now_ms += 10;
         self.log.push("schedule".to_string());
-        self.world_action(|s| {
+        self.world_action(vec!["sched".to_string()], |s| {
             s.world.schedule();
         });
     }
@@ -653,13 +692,19 @@ impl Sim {
             return false;
         }
         let (id, to_worker) = *self.rng.pick(&cands);
+        let mut ops = vec![];
         {
             let w = &self.world.workers[&id];
             let m = if to_worker { format!("{:?}", w.to_worker.front().unwrap()) } else { format!("{:?}", w.to_server.front().unwrap()) };
             let m: String = m.chars().filter(|c| *c != '\n').take(400).collect();
             self.log.push(format!("deliver {} {} {}", if to_worker { "s2w" } else { "w2s" }, id, m));
+            if !to_worker {
+                if let Some(op) = crate::coreview::update_op(id, w.to_server.front().unwrap()) {
+                    ops.push(op);
+                }
+            }
         }
-        self.world_action(|s| {
+        self.world_action(ops, |s| {
             if to_worker {
                 s.world.deliver_to_worker(id);
             } else {
@@ -677,7 +722,7 @@ impl Sim {
         let (w, t) = *self.rng.pick(&running);
         let kind = if self.rng.chance(1, 4) { EndKind::Error } else { EndKind::Finished };
         self.log.push(format!("end_task w={w} {} {:?}", tid(t), kind));
-        self.world_action(|s| {
+        self.world_action(vec![], |s| {
             s.world.end_task(w, t, kind);
         });
         true
@@ -747,7 +792,7 @@ impl Sim {
                     break;
                 }
                 self.log.push(format!("end_task w={w} {} Finished (drain)", tid(t)));
-                self.world_action(|s| {
+                self.world_action(vec![], |s| {
                     s.world.end_task(w, t, EndKind::Finished);
                 });
                 progress = true;
